@@ -857,6 +857,7 @@ func init() {
 		Run: func(c *Ctx) {
 			c.ImportRules("C10")
 			c.DecodeFreshTarget("C11")
+			c.SameStore("C10")
 			if s := c.Slashing("C10.anchors"); s.OK() {
 				c.EncodeDecodeAgreement("C10", s, s.AttState, map[string]bool{"SourceEpoch": true, "TargetEpoch": true})
 				c.EncodeDecodeAgreement("C10", s, s.PropState, map[string]bool{"Slot": true})
